@@ -97,7 +97,7 @@ STAGES = [dict(name='data', mode='unit', coq='Check.C01u', profile=('Proofs.Judg
                exhaustive={'thorough': True, 'quick': True},
                rule='ActionData::update + trigger_events on a bare world with two recipients: all 9 transitions x 4 output types and all state histories of length <= 4; '
                     'kinds, order and every payload field compared'),
-          dict(name='frames', mode='app', coq='Check.C01c', cases=app_cases, nontrivial=nontrivial, shard=25,
+          dict(name='frames', mode='app', coq='Check.C01c', profile=('Proofs.JudgeC01P', 'JudgeC01P.profile_C01b', 'C01_app_judgement_sound / C01_app_judgement_transfer'), cases=app_cases, nontrivial=nontrivial, shard=25,
                exhaustive={'thorough': True, 'quick': True},
                rule='real App: 1-3 context types (exclusive and shared), 1-3 entities, actions of all four output types, each driven by a scripted explicit condition, '
                     'a scripted modifier producing values of arbitrary dimension, optionally a scripted events-only blocker and a scripted plain blocker; every state script over {None,Ongoing,Fired} of length '
